@@ -1005,3 +1005,154 @@ Proof.
   exact (resume_has_checkpoint dehb_sched c Hs true dehb_needed dpend_ids dehb_inv dehb_H_res dehb_H_sug dehb_H_rem
            dehb_H_err (dehb0 tbl mx sup) its pre i post (dehb0_inv tbl mx sup) E).
 Qed.
+
+(* ==== the promotion-type rung system: promo2_sched satisfies the interface ==================== *)
+Definition q_unprom (ents : list (Z * Z * bool)) : list Z :=
+  map (fun e => snd (fst e)) (filter (fun e => negb (snd e)) ents).
+Definition q_run_ids (s : promo2) : list Z := map fst (q_run s).
+Definition promo2_needed (s : promo2) : list Z := q_unprom (q_ents s) ++ q_run_ids s.
+(* a trial is registered as not promoted at most once, and never while it runs *)
+Definition promo2_inv (n : Z) (s : promo2) : Prop :=
+  (0 <= n)%Z /\ (forall x, In x (promo2_needed s) -> (0 <= x < n)%Z) /\
+  NoDup (q_unprom (q_ents s)) /\ (forall x, In x (q_unprom (q_ents s)) -> ~ In x (q_run_ids s)).
+
+Lemma q_lookup_In l i m : q_lookup l i = Some m -> In i (map fst l).
+Proof.
+  induction l as [|[j y] l IH]; simpl; [discriminate|].
+  destruct (Z.eqb j i) eqn:E; [intros _; left; now apply Z.eqb_eq | intros H; right; auto].
+Qed.
+Lemma q_lookup_None l i : q_lookup l i = None -> ~ In i (map fst l).
+Proof.
+  induction l as [|[j y] l IH]; simpl; [tauto|].
+  destruct (Z.eqb j i) eqn:E; [discriminate|]. apply Z.eqb_neq in E. intros H [Hj|Hj]; [congruence|exact (IH H Hj)].
+Qed.
+Lemma q_remove_ids l i x : In x (map fst (q_remove l i)) <-> In x (map fst l) /\ x <> i.
+Proof.
+  unfold q_remove. rewrite !in_map_iff. split.
+  - intros [e [<- He]]. apply filter_In in He as [H1 H2]. apply negb_true_iff, Z.eqb_neq in H2. split; [exists e; auto|exact H2].
+  - intros [[e [<- He]] Hn]. exists e. split; [reflexivity|]. apply filter_In. split; [exact He|].
+    now apply negb_true_iff, Z.eqb_neq.
+Qed.
+
+Lemma q_mark_unprom ents lv t : existsb (q_is_unprom lv t) ents = true -> NoDup (q_unprom ents) ->
+  incl (q_unprom (q_mark ents lv t)) (q_unprom ents) /\ NoDup (q_unprom (q_mark ents lv t)) /\
+  ~ In t (q_unprom (q_mark ents lv t)) /\ In t (q_unprom ents).
+Proof.
+  induction ents as [|[[l x] p] ents IH]; simpl; [discriminate|]. unfold q_unprom in *.
+  destruct (q_is_unprom lv t (l, x, p)) eqn:Eq; simpl.
+  - unfold q_is_unprom in Eq. simpl in Eq. apply andb_true_iff in Eq as [Eq Ep]. apply andb_true_iff in Eq as [_ Ex].
+    apply Z.eqb_eq in Ex. apply negb_true_iff in Ep. subst x p. simpl. intros _ Hnd. inversion Hnd; subst.
+    split; [apply incl_tl, incl_refl|]. split; [assumption|]. split; [assumption|now left].
+  - intros He Hnd. destruct p; simpl in *.
+    + destruct (IH He Hnd) as [A [B [C Dd]]]. auto.
+    + inversion Hnd; subst. destruct (IH He H2) as [A [B [C Dd]]]. split; [|split; [|split]].
+      * intros y [<-|Hy]; [now left | right; now apply A].
+      * constructor; [|exact B]. intros Hin. apply H1. now apply A.
+      * intros [Hx|Hin]; [|exact (C Hin)]. subst x.
+        unfold q_is_unprom in Eq. simpl in Eq. rewrite Z.eqb_refl, andb_true_r in Eq.
+        (* same trial, other level: then t is registered twice, excluded by NoDup *)
+        apply H1. exact Dd.
+      * now right.
+Qed.
+
+Lemma promo2_H_res : forall n s i r s' d cl, promo2_inv n s -> In i (q_run_ids s) ->
+  on_result promo2_sched s i r = (s', d, cl) ->
+  promo2_inv n s' /\ incl (promo2_needed s') (promo2_needed s) /\ (d = STOP -> ~ In i (promo2_needed s')) /\
+  (forall j, cl = Some j -> In j (promo2_needed s)) /\
+  (forall x, In x (q_run_ids s) -> x <> i \/ d = CONTINUE -> In x (q_run_ids s')).
+Proof.
+  intros n s i r s' d cl [H0 [Hb [Hnd Hdis]]] Hir E. simpl in E. unfold promo2_on_result in E.
+  destruct (q_lookup (q_run s) i) as [ms|] eqn:El.
+  2:{ exfalso. exact (q_lookup_None _ _ El Hir). }
+  assert (~ In i (q_unprom (q_ents s))) as Hiu by (intros H; exact (Hdis i H Hir)).
+  destruct (Z.leb (q_max_t s) r).
+  - injection E as <- <- <-. unfold promo2_needed, q_run_ids. simpl.
+    assert (incl (q_unprom (q_ents s) ++ map fst (q_remove (q_run s) i)) (promo2_needed s)) as Hinc.
+    { intros x Hx. apply in_app_or in Hx as [Hx|Hx]; apply in_or_app; [now left|right]. apply q_remove_ids in Hx. tauto. }
+    split; [|split; [exact Hinc|split; [|split; [discriminate|]]]].
+    + split; [exact H0|]. split; [intros x Hx; apply Hb; now apply Hinc|]. split; [exact Hnd|].
+      intros x Hx Hr. apply q_remove_ids in Hr. exact (Hdis x Hx (proj1 Hr)).
+    + intros _ Hx. apply in_app_or in Hx as [Hx|Hx]; [exact (Hiu Hx)|]. apply q_remove_ids in Hx. tauto.
+    + intros x Hx [Hne|Hc]; [apply q_remove_ids; auto | discriminate].
+  - destruct (Z.leb ms r).
+    + injection E as <- <- <-. unfold promo2_needed, q_run_ids. simpl.
+      set (ents' := if mem_Z ms (q_levels s) then (ms, i, false) :: q_ents s else q_ents s).
+      assert (incl (q_unprom ents') (i :: q_unprom (q_ents s))) as Hu.
+      { unfold ents'. destruct (mem_Z ms (q_levels s)); unfold q_unprom; simpl; [apply incl_refl|apply incl_tl, incl_refl]. }
+      assert (NoDup (q_unprom ents')) as Hnd'.
+      { unfold ents'. destruct (mem_Z ms (q_levels s)); [|exact Hnd]. unfold q_unprom. simpl. constructor; assumption. }
+      assert (incl (q_unprom ents' ++ map fst (q_remove (q_run s) i)) (promo2_needed s)) as Hinc.
+      { intros x Hx. apply in_app_or in Hx as [Hx|Hx]; apply in_or_app.
+        - apply Hu in Hx. destruct Hx as [<-|Hx]; [now right|now left].
+        - right. apply q_remove_ids in Hx. tauto. }
+      split; [|split; [exact Hinc|split; [discriminate|split; [discriminate|]]]].
+      * split; [exact H0|]. split; [intros x Hx; apply Hb; now apply Hinc|]. split; [exact Hnd'|].
+        intros x Hx Hr. apply q_remove_ids in Hr as [Hr Hne]. apply Hu in Hx. destruct Hx as [Hx|Hx]; [congruence|exact (Hdis x Hx Hr)].
+      * intros x Hx [Hne|Hc]; [apply q_remove_ids; auto | discriminate].
+    + injection E as <- <- <-. split; [exact (conj H0 (conj Hb (conj Hnd Hdis)))|]. split; [apply incl_refl|].
+      split; [discriminate|]. split; [discriminate|auto].
+Qed.
+
+Lemma promo2_H_sug : forall n s g s' sg, promo2_inv n s -> suggest promo2_sched s n g = (s', sg) ->
+  match sg with
+  | SNone => promo2_inv n s' /\ incl (promo2_needed s') (promo2_needed s) /\ incl (q_run_ids s) (q_run_ids s')
+  | SNew => promo2_inv (n + 1)%Z s' /\ incl (promo2_needed s') (n :: promo2_needed s) /\ incl (n :: q_run_ids s) (q_run_ids s')
+  | SFrom j => promo2_inv (n + 1)%Z s' /\ incl (promo2_needed s') (n :: promo2_needed s) /\ incl (n :: q_run_ids s) (q_run_ids s') /\
+               (true = true -> In j (promo2_needed s))
+  | SResume i => promo2_inv n s' /\ incl (promo2_needed s') (promo2_needed s) /\ incl (i :: q_run_ids s) (q_run_ids s') /\
+                 In i (promo2_needed s)
+  end.
+Proof.
+  intros n s g s' sg [H0 [Hb [Hnd Hdis]]] E. simpl in E. unfold promo2_suggest in E.
+  assert (forall m, let s1 := {| q_levels := q_levels s; q_max_t := q_max_t s; q_ents := q_ents s; q_run := (n, m) :: q_run s |} in
+            promo2_inv (n + 1)%Z s1 /\ incl (promo2_needed s1) (n :: promo2_needed s) /\ incl (n :: q_run_ids s) (q_run_ids s1)) as Kn.
+  { intros m s1. assert (incl (promo2_needed s1) (n :: promo2_needed s)) as Hi.
+    { unfold promo2_needed, q_run_ids, s1. simpl. intros x Hx. apply in_app_or in Hx as [Hx|[<-|Hx]];
+        [right; apply in_or_app; now left | now left | right; apply in_or_app; now right]. }
+    split; [|split; [exact Hi|unfold q_run_ids, s1; simpl; apply incl_refl]].
+    split; [lia|]. split; [|split; [exact Hnd|]].
+    - intros x Hx. apply Hi in Hx. destruct Hx as [<-|Hx]; [lia|]. specialize (Hb x Hx). lia.
+    - intros x Hx [Hr|Hr]; [|exact (Hdis x Hx Hr)]. subst x.
+      assert (0 <= n < n)%Z; [|lia]. apply Hb. apply in_or_app. now left. }
+  destruct (fst g) as [[lv t]|]; [|injection E as <- <-; apply Kn].
+  destruct (existsb (q_is_unprom lv t) (q_ents s) && Z.ltb lv (q_max_t s)) eqn:Ec; [|injection E as <- <-; apply Kn].
+  apply andb_true_iff in Ec as [Ee _]. injection E as <- <-.
+  destruct (q_mark_unprom _ _ _ Ee Hnd) as [A [B [C Dd]]].
+  unfold promo2_needed, q_run_ids. simpl. split; [|split; [|split]].
+  - split; [exact H0|]. split; [|split; [exact B|]].
+    + intros x Hx. apply Hb. apply in_app_or in Hx as [Hx|[<-|Hx]]; apply in_or_app; [left; now apply A | now left | now right].
+    + intros x Hx [Hr|Hr]; [subst x; exact (C Hx) | exact (Hdis x (A x Hx) Hr)].
+  - intros x Hx. apply in_app_or in Hx as [Hx|[<-|Hx]]; apply in_or_app; [left; now apply A | now left | now right].
+  - apply incl_refl.
+  - apply in_or_app. now left.
+Qed.
+
+Lemma promo2_H_rem : forall n s s' l, promo2_inv n s -> removables promo2_sched s = (s', l) ->
+  promo2_inv n s' /\ incl (promo2_needed s') (promo2_needed s) /\ incl (q_run_ids s) (q_run_ids s') /\
+  forall i, In i l -> ~ In i (promo2_needed s') /\ (0 <= i < n)%Z.
+Proof.
+  intros n s s' l HI E. simpl in E. injection E as <- <-.
+  split; [exact HI|]. split; [apply incl_refl|]. split; [apply incl_refl|]. intros i [].
+Qed.
+
+Lemma promo2_H_err : forall n s i, promo2_inv n s ->
+  promo2_inv n (on_error promo2_sched s i) /\ incl (promo2_needed (on_error promo2_sched s i)) (promo2_needed s) /\
+  (forall x, In x (q_run_ids s) -> x <> i -> In x (q_run_ids (on_error promo2_sched s i))).
+Proof.
+  intros n s i [H0 [Hb [Hnd Hdis]]]. simpl. unfold promo2_needed, q_run_ids. simpl.
+  assert (incl (q_unprom (q_ents s) ++ map fst (q_remove (q_run s) i)) (promo2_needed s)) as Hinc.
+  { intros x Hx. apply in_app_or in Hx as [Hx|Hx]; apply in_or_app; [now left|right]. apply q_remove_ids in Hx. tauto. }
+  split; [|split; [exact Hinc|intros x Hx Hne; apply q_remove_ids; auto]].
+  split; [exact H0|]. split; [intros x Hx; apply Hb; now apply Hinc|]. split; [exact Hnd|].
+  intros x Hx Hr. apply q_remove_ids in Hr. exact (Hdis x Hx (proj1 Hr)).
+Qed.
+
+Theorem promo2_resume_has_checkpoint : forall c levels max_t its pre i post, speculative c = false ->
+  run promo2_sched c (init (promo2_0 levels max_t)) its = pre ++ EResume i :: post ->
+  forall w, ~ In (EDelete i w) pre.
+Proof.
+  intros c levels max_t its pre i post Hs E.
+  apply (resume_has_checkpoint promo2_sched c Hs true promo2_needed q_run_ids promo2_inv promo2_H_res promo2_H_sug
+           promo2_H_rem promo2_H_err (promo2_0 levels max_t) its pre i post); [|exact E].
+  split; [lia|]. split; [intros x []|]. split; [constructor|intros x []].
+Qed.
